@@ -608,6 +608,12 @@ pub fn run_program_world(prog: &Value, out: &mut Out) -> Option<World> {
                 let mut r2 = Runner { w: w2, out: &mut *r.out, seed, chunk, cur_dry: false, probe_ops: false, probe_steps: true,
                                       handles: BTreeMap::new(), nproc: 500 };
                 r2.step(&st2);
+                // life goes on after the failed / interrupted command: follow-up commands run on what it left behind
+                if let Some(after) = prog.get("after").and_then(Value::as_array) {
+                    for a in after {
+                        r2.step(a);
+                    }
+                }
             }
         } else {
             r.step(st);
